@@ -104,4 +104,25 @@ __CPROVER_loop_invariant(0 <= i && i <= samples->n && !nv_op_bad && nv_op_last <
 __CPROVER_loop_invariant(nv_op_calls_g == ((nv_g < i && fvalues->first[nv_g] >= 0) ? 1 : 0)) \
 __CPROVER_loop_invariant(nv_op_calls_g == 1 ==> nv_op_ival_g == nv_g) \
 __CPROVER_decreases(samples->n - i)
+
+/* ---- the enclosing functions loop_scalar / loop_sclass / loop_mclass(dataset, samples, feature, op): they build a
+ * select_iterator_t over the given dataset and hand the callback to iterator.loop(samples, feature, callback) exactly once,
+ * with the given samples and the given feature.
+ * ASSUMED (src/dataset/iterator.cpp: select_iterator_t::loop(samples, ifeature, callback)): that function calls
+ * callback(ifeature, 0, dataset().select(samples, ifeature, buffer)) once, and the selected values hold one entry per
+ * sample -- which is the precondition fvalues.size == samples.size() of the callback contracts above. */
+struct nv_dataset { int32_t dummy; };
+struct nv_iter { const struct nv_dataset* dataset; };          /* select_iterator_t */
+int64_t nv_il_count, nv_il_feature; int32_t nv_il_kind; const struct nv_dataset* nv_il_dataset; struct nv_t1i nv_il_samples;
+static struct nv_iter nv_iter_make(const struct nv_dataset* d) { struct nv_iter it; it.dataset = d; return it; }
+static void nv_iter_loop(const struct nv_iter* it, struct nv_t1i samples, int64_t feature, int32_t kind)
+{ nv_il_count = nv_il_count + 1; nv_il_dataset = it->dataset; nv_il_samples = samples; nv_il_feature = feature; nv_il_kind = kind; }
+#define NV_OUTER_CONTRACT(kind) \
+__CPROVER_requires(__CPROVER_is_fresh(dataset, sizeof(*dataset)) && __CPROVER_is_fresh(samples, sizeof(*samples)) && __CPROVER_is_fresh(op, sizeof(*op)) && nv_il_count == 0) \
+__CPROVER_assigns(nv_il_count, nv_il_feature, nv_il_kind, nv_il_dataset, nv_il_samples) \
+__CPROVER_ensures(nv_il_count == 1 && nv_il_kind == (kind) && nv_il_dataset == dataset && nv_il_feature == feature) \
+__CPROVER_ensures(nv_il_samples.p == samples->p && nv_il_samples.n == samples->n)
+#define NV_CONTRACT_loop_scalar NV_OUTER_CONTRACT(0)
+#define NV_CONTRACT_loop_sclass NV_OUTER_CONTRACT(1)
+#define NV_CONTRACT_loop_mclass NV_OUTER_CONTRACT(2)
 #endif
